@@ -165,6 +165,9 @@ class ConcurrentExecutor(ABC, Generic[CallableType, ResultType]):
         self._suspend_exception: SuspendExecution | None = None
         # A BaseException other than suspend/orphan that left a branch (e.g. BackgroundThreadError)
         self._fatal_exception: BaseException | None = None
+        # Serializes the done-callbacks of the branches: a branch's status, the counters and the
+        # complete-or-suspend decision derived from them must be read and written consistently.
+        self._decision_lock = threading.Lock()
 
         # ExecutionCounters will keep track of completion criteria and on-going counters
         min_successful = self.completion_config.min_successful or len(self.executables)
@@ -324,43 +327,52 @@ class ConcurrentExecutor(ABC, Generic[CallableType, ResultType]):
             exe_state.suspend()
             return
 
-        try:
-            result = future.result()
-            exe_state.complete(result)
-            self.counters.complete_task()
-        except OrphanedChildException:
-            # Parent already completed and returned.
-            # State is already RUNNING, which _create_result() marked as STARTED
-            # Just log and exit - no state change needed
-            logger.debug(
-                "Terminating orphaned branch %s without error because parent has completed already",
-                exe_state.index,
-            )
-            return
-        except TimedSuspendExecution as tse:
-            exe_state.suspend_with_timeout(tse.scheduled_timestamp)
-            scheduler.schedule_resume(exe_state, tse.scheduled_timestamp)
-        except SuspendExecution:
-            exe_state.suspend()
-            # For indefinite suspend, don't schedule resume
-        except Exception as e:  # noqa: BLE001
-            exe_state.fail(e)
-            self.counters.fail_task()
-        except BaseException as e:  # noqa: BLE001
-            # e.g. BackgroundThreadError: it must not be lost inside concurrent.futures (which only logs
-            # exceptions of done-callbacks and swallows nothing else): wake the caller so it can terminate.
-            self._fatal_exception = e
-            self._completion_event.set()
-            return
-
-        # Check if execution should complete or suspend
-        if self.counters.should_complete():
-            self._completion_event.set()
-        else:
-            suspend_result = self.should_execution_suspend()
-            if suspend_result.should_suspend:
-                self._suspend_exception = suspend_result.exception
+        resume_at: float | None = None
+        # Without the lock two branches finishing at the same time can interleave "status written" and
+        # "counter updated": one callback then sees every branch in a final state while the counters do
+        # not yet say that the completion criteria are met, and suspends a call that is already decided.
+        with self._decision_lock:
+            try:
+                result = future.result()
+                exe_state.complete(result)
+                self.counters.complete_task()
+            except OrphanedChildException:
+                # Parent already completed and returned.
+                # State is already RUNNING, which _create_result() marked as STARTED
+                # Just log and exit - no state change needed
+                logger.debug(
+                    "Terminating orphaned branch %s without error because parent has completed already",
+                    exe_state.index,
+                )
+                return
+            except TimedSuspendExecution as tse:
+                exe_state.suspend_with_timeout(tse.scheduled_timestamp)
+                resume_at = tse.scheduled_timestamp
+            except SuspendExecution:
+                exe_state.suspend()
+                # For indefinite suspend, don't schedule resume
+            except Exception as e:  # noqa: BLE001
+                exe_state.fail(e)
+                self.counters.fail_task()
+            except BaseException as e:  # noqa: BLE001
+                # e.g. BackgroundThreadError: it must not be lost inside concurrent.futures (which only logs
+                # exceptions of done-callbacks and swallows nothing else): wake the caller so it can terminate.
+                self._fatal_exception = e
                 self._completion_event.set()
+                return
+
+            # Check if execution should complete or suspend
+            if self.counters.should_complete():
+                self._completion_event.set()
+            else:
+                suspend_result = self.should_execution_suspend()
+                if suspend_result.should_suspend:
+                    self._suspend_exception = suspend_result.exception
+                    self._completion_event.set()
+
+        # Outside the lock: the timer thread holds the scheduler's lock while it resubmits a branch.
+        if resume_at is not None:
+            scheduler.schedule_resume(exe_state, resume_at)
 
     def _create_result(self) -> BatchResult[ResultType]:
         """
